@@ -181,8 +181,15 @@ func c19Metadata(which string) []byte {
 	case "B":
 		ent, acs = c19EntB, c19AcsB
 	}
+	if which == "X" { // a third SP whose metadata carries validity attributes that lie in the past
+		ent, acs = "https://sp-x.example.com/metadata", "https://sp-x.example.com/acs"
+	}
 	ed := saml.EntityDescriptor{EntityID: ent, SPSSODescriptors: []saml.SPSSODescriptor{{SSODescriptor: saml.SSODescriptor{RoleDescriptor: saml.RoleDescriptor{ProtocolSupportEnumeration: "urn:oasis:names:tc:SAML:2.0:protocol"}},
 		AssertionConsumerServices: []saml.IndexedEndpoint{{Binding: saml.HTTPPostBinding, Location: acs, Index: 1}}}}}
+	if which == "X" {
+		ed.ValidUntil = time.Date(2020, 1, 1, 0, 0, 0, 0, time.UTC)
+		ed.CacheDuration = time.Hour
+	}
 	b, _ := xml.Marshal(ed)
 	return b
 }
@@ -692,6 +699,7 @@ func runC19(c *core.Ctx) {
 	c.Note("bfs_transitions", float64(totalTrans))
 	c.Note("fault_runs", float64(faultRuns))
 	c19Live(c, acts)
+	c19LiveCredentials(c, acts)
 }
 
 // c19Step runs one action from state s. Returns the successor (nil if the action is not applicable) and violations.
@@ -1007,5 +1015,102 @@ func c19Live(c *core.Ctx, acts []c19Action) {
 			t.Impl(n)
 			t.Compared()
 		})
+	}
+}
+
+// c19LiveCredentials: on ONE long-lived server, every sequence over the actions that touch alice's credentials - logins and SSO with
+// posted credentials (right, superseded, empty password), password change, profile change, deletion - with at most one (slow, bcrypt
+// DefaultCost) password change per sequence. What a restart would forget must not matter: after a password change only the current
+// password opens a session or obtains an assertion.
+func c19LiveCredentials(c *core.Ctx, acts []c19Action) {
+	c.Group("live-credential-sequences")
+	var alpha []int
+	for i, a := range acts {
+		n := a.name
+		if strings.HasPrefix(n, "login alice/") || strings.Contains(n, "with credentials alice/") || strings.HasPrefix(n, "PUT user alice") || strings.HasPrefix(n, "DELETE user alice") {
+			alpha = append(alpha, i)
+		}
+	}
+	maxLen := 3
+	if c.Thorough() {
+		maxLen = 4
+	}
+	ini := c19Initials()[0] // the seeded store: alice has password p1
+	for _, a1 := range alpha {
+		for _, a2 := range alpha {
+			a1, a2 := a1, a2
+			c.Case("livecreds/"+acts[a1].name+" ; "+acts[a2].name, func(t *core.T) {
+				t.NonTrivial()
+				n := 0
+				reported := map[string]bool{}
+				var rec func(seq []int, heavy int)
+				rec = func(seq []int, heavy int) {
+					if heavy > 1 {
+						return
+					}
+					if len(seq) == maxLen {
+						st := ini.store.clone()
+						m := ini.m.clone()
+						srv, err := c19Server(st)
+						if err != nil {
+							return
+						}
+						var path []string
+						for _, ai := range seq {
+							a := acts[ai]
+							path = append(path, a.name)
+							rq := a.req(m)
+							rep := c19Do(srv, rq, m.notch, core.Hash12(strings.Join(path, ";")))
+							n++
+							if rep.panic != "" {
+								if !reported["panic"] {
+									reported["panic"] = true
+									t.Fail("C19/live/panic@"+rep.panic[strings.LastIndex(rep.panic, "@")+1:], "%s: %s", strings.Join(path, " ; "), rep.panic)
+								}
+								return
+							}
+							cookieBefore := m.cookie
+							may, _, _, _ := a.apply(m, rep)
+							got := hasAssertionForm(rep.body)
+							f := ""
+							if got != may {
+								f = "live/assertion-verdict-differs-from-model/" + actClass(a.name)
+							}
+							if strings.HasPrefix(a.name, "login ") && rep.setSess != "" && m.cookie == cookieBefore {
+								f = "live/session-without-valid-credentials" // the model did not log anybody in, the server set a session cookie
+							}
+							if f != "" && !reported[f] {
+								reported[f] = true
+								t.Fail("C19/"+f, "on one long-lived server, history %s: assertion emitted=%v (model allows=%v), session cookie set=%v (status %d)", strings.Join(path, " ; "), got, may, rep.setSess != "", rep.code)
+							}
+							if rep.setSess != "" {
+								t.Outcome("a-login-succeeded")
+							}
+							if got {
+								t.Outcome("an-assertion-was-emitted")
+							}
+						}
+						return
+					}
+					for _, ai := range alpha {
+						h := heavy
+						if acts[ai].heavy {
+							h++
+						}
+						rec(append(append([]int{}, seq...), ai), h)
+					}
+				}
+				h0 := 0
+				for _, ai := range []int{a1, a2} {
+					if acts[ai].heavy {
+						h0++
+					}
+				}
+				rec([]int{a1, a2}, h0)
+				t.Evals(n)
+				t.Impl(n)
+				t.Compared()
+			})
+		}
 	}
 }
